@@ -5,6 +5,7 @@ import (
 	"errors"
 	"fmt"
 	"math/rand"
+	"os"
 	"strings"
 	"sync"
 	"sync/atomic"
@@ -192,7 +193,7 @@ func c10Programs(rng *rand.Rand, binary bool, chunkedL1 bool, n int) []c10Progra
 	states := []string{"absent", "both", "l2only"}
 	for len(progs) < n {
 		t := targets[len(progs)%len(targets)]
-		st := states[rng.Intn(len(states))]
+		st := states[(len(progs)/len(targets))%len(states)]
 		if (t == "gat" || t == "setq") && !binary {
 			t = "get"
 		}
@@ -255,7 +256,26 @@ type c10Result struct {
 	Inconcl  string
 	Restart  bool
 	Requests [2]int
+	Ops      [2][]byte // opcodes of the backend requests the target made on L1 / L2
 	Acked    bool
+}
+
+// statusPlausible says whether a memcached could answer opcode op with error status st.
+// Statuses that assert something about the key's presence which the opcode cannot express
+// (e.g. "item not stored" as the answer to a get) are not injected: the orchestrators
+// legitimately read meaning into them.
+func statusPlausible(op byte, st uint16) bool {
+	storage := op == fakemc.OpSet || op == fakemc.OpSetQ || op == fakemc.OpAdd || op == fakemc.OpAddQ || op == fakemc.OpReplace || op == fakemc.OpReplaceQ
+	concat := op == fakemc.OpAppend || op == fakemc.OpAppendQ || op == fakemc.OpPrepend || op == fakemc.OpPrependQ
+	switch st {
+	case 0x01: // key not found (made truthful by evicting the entry)
+		return !storage || op == fakemc.OpReplace || op == fakemc.OpReplaceQ
+	case 0x05: // item not stored: absence for append/prepend (evicted), a bare refusal for set/add/replace
+		return storage || concat
+	case 0x03: // value too large
+		return storage || concat
+	}
+	return true
 }
 
 // c10Run executes one program with an optional single fault (tier 0 = none, 1 = L1, 2 = L2).
@@ -263,7 +283,8 @@ func c10Run(p *harness.Proxy, binary bool, port int, prog c10Program, tier int, 
 	res := c10Result{Witness: map[string]interface{}{}}
 	p.ResetStores()
 	pm := newPModel()
-	setup, err := p.Dial(port, binary)
+	// set-up always goes through the main port: the batch orchestrator never inserts into L1
+	setup, err := p.Dial(0, binary)
 	if err != nil {
 		res.Inconcl = "dial: " + err.Error()
 		return res
@@ -318,6 +339,12 @@ func c10Run(p *harness.Proxy, binary bool, port int, prog c10Program, tier int, 
 	}
 	obs, err := cl.Do(prog.Target)
 	res.Requests = [2]int{int(p.L1.ArmedCount()), int(p.L2.ArmedCount())}
+	for _, rq := range p.L1.Log() {
+		res.Ops[0] = append(res.Ops[0], rq.Op)
+	}
+	for _, rq := range p.L2.Log() {
+		res.Ops[1] = append(res.Ops[1], rq.Op)
+	}
 	p.L1.DisarmFaults()
 	p.L2.DisarmFaults()
 	res.Witness["target_reply"] = brief(obs)
@@ -465,7 +492,7 @@ func checkC10(tier, replay string) int {
 		"and verification reads from a fresh connection judged against a possible-state model (acknowledged writes collapse the set, unacknowledged ones widen it). " +
 		"distinct_nontrivial = distinct (configuration, protocol, port, program kind, tier, request index, fault kind)")
 	run.Assume("single faults only; corrupt-but-well-framed backend replies are outside the statement")
-	nprog := run.Pick(11, 66)
+	nprog := run.Pick(33, 99)
 	var cfgs []harness.ProxyCfg
 	for _, kind := range []string{"std", "chunked"} {
 		cfgs = append(cfgs, harness.ProxyCfg{L1Kind: kind}, harness.ProxyCfg{L2: true, L1Kind: kind})
@@ -532,11 +559,18 @@ func checkC10(tier, replay string) int {
 					n := dry.Requests[tierN-1]
 					for idx := 1; idx <= n; idx++ {
 						for _, flt := range c10FaultKinds(!run.Thorough(), len(prog.Target.Value)) {
+							if flt.Kind == fakemc.FaultStatus && idx-1 < len(dry.Ops[tierN-1]) && !statusPlausible(dry.Ops[tierN-1][idx-1], flt.Status) {
+								run.Count("status_faults_skipped_as_implausible_for_the_opcode", 1)
+								continue
+							}
 							if atomic.LoadInt32(&hangs) >= 8 {
 								run.Count("fault_runs_skipped_after_8_hangs", 1)
 								continue
 							}
 							r := c10Run(p, jb.binary, jb.port, prog, tierN, uint64(idx), flt)
+							if os.Getenv("VERIF_DEBUG_C10") != "" && strings.Contains(what+prog.Name, os.Getenv("VERIF_DEBUG_C10")) {
+								fmt.Fprintf(os.Stderr, "DEBUG %s %s L%d #%d %s acked=%v bad=%q inconcl=%q witness=%v\n", what, prog.Name, tierN, idx, flt, r.Acked, r.Bad, r.Inconcl, r.Witness)
+							}
 							run.Eval(1)
 							run.Count("fault_runs", 1)
 							if r.Acked {
